@@ -24,20 +24,25 @@ E2_EQUIV = ['aes256gcm-aesni-spec', 'aegis128l-aesni-spec', 'aegis128l-soft-spec
 
 def obligations(tier):
     obs = []
+    # thorough: every mlen 0..40 with the boundary ad lengths, and every adlen 0..33 with the boundary message lengths
+    # (the full 41 x 34 product is 4 182 CBMC runs of ~25 s: more than two hours for no additional branch of the glue)
     full_m = list(range(0, 41))
     full_a = list(range(0, 34))
+    TA = (0, 1, 5, 15, 16, 17, 31, 32, 33)
     for v in (0, 1, 2):
         for ml in full_m:
             for al in full_a:
                 q = ml in BOUNDARY and al in (0, 1, 15, 16, 17, 33)
                 if tier != "thorough" and not q:
                     continue
+                if not q and not (al in TA or ml in BOUNDARY):
+                    continue
                 obs.append(Ob("aead-%s-m%d-a%d" % (VNAME[v], ml, al), "C01/aead_chacha.c",
                               units=CHACHA_UNITS[v] + GLUE_UNITS, stubs=GLUE_STUBS,
                               defs={"VARIANT": v, "MLEN": ml, "ADLEN": al}, unwind=210, timeout=300,
                               tier="quick" if q else "thorough", family="aead-" + VNAME[v],
                               desc="encrypt(_detached) output and MAC input == spec; combined == detached; decrypt(encrypt(m)) == m",
-                              bounds="all key/nonce/message/ad bytes; (mlen, adlen) enumerated: quick 9x6 boundary pairs, thorough every pair in 0..40 x 0..33"))
+                              bounds="all key/nonce/message/ad bytes; (mlen, adlen) enumerated: quick 9x6 boundary pairs, thorough every mlen 0..40 x 9 boundary adlens and every adlen 0..33 x 9 boundary mlens"))
     for v in (0, 1):
         for ml in range(0, 81):
             q = ml in (0, 1, 15, 16, 17, 31, 32, 33, 48, 64, 65, 80)
